@@ -135,6 +135,10 @@ pub enum Step16 {
 pub struct Scen16 {
     pub threads: Vec<Vec<Step16>>,
     pub schedule: Vec<usize>,
+    /// thread churn: before schedule position `.0`, `.1` short-lived threads are created one
+    /// after the other; each performs one failing call of kind `.2` and exits
+    #[serde(default)]
+    pub churn: Vec<(usize, usize, u8)>,
 }
 
 const N_FAIL_KINDS: u8 = 16;
@@ -462,6 +466,29 @@ fn exec16(sc: &Scen16) -> (Option<Violation>, u64, Stats, bool) {
         if i >= k {
             continue;
         }
+        for (at, count, kind) in &sc.churn {
+            if *at == pos {
+                let bytes = base_packet();
+                for _ in 0..*count {
+                    let b = bytes.clone();
+                    let kind = *kind;
+                    let h = std::thread::Builder::new().stack_size(1 << 18).spawn(move || {
+                        let table = dnssector::fn_table();
+                        let mut err: *const CErr = std::ptr::null();
+                        let _ = guarded(|| unsafe { table_fail(&table, &mut err, kind, &b) });
+                    });
+                    if let Ok(h) = h {
+                        let _ = h.join();
+                    }
+                    bump(&mut stats, "churn_threads");
+                }
+                // every live thread has now been "interleaved" with foreign failures
+                for f in foreign_between.iter_mut() {
+                    *f = true;
+                }
+                log.write_str("churn");
+            }
+        }
         let r = match parked.step(i) {
             Some(r) => r,
             None => break,
@@ -541,25 +568,40 @@ fn exec16(sc: &Scen16) -> (Option<Violation>, u64, Stats, bool) {
 
 fn gen16(rng: &mut Rng) -> Scen16 {
     let k = rng.range(2, 4);
+    // swarm: each run draws its failure kinds from a small palette, so that different threads
+    // often fail with the *same* text as well as with different ones
+    let palette: Vec<u8> = {
+        let n = *rng.pick(&[2usize, 2, 3, 4, 6, N_FAIL_KINDS as usize]);
+        (0..n).map(|_| rng.below(N_FAIL_KINDS as usize) as u8).collect()
+    };
     let mut threads = Vec::new();
     for _ in 0..k {
         let n = rng.range(2, 8);
         let mut s = Vec::new();
         for _ in 0..n {
             s.push(match rng.below(10) {
-                0..=3 => Step16::Fail(rng.below(N_FAIL_KINDS as usize) as u8),
+                0..=3 => Step16::Fail(*rng.pick(&palette)),
                 4..=7 => Step16::Read,
                 _ => Step16::Okay(rng.below(4) as u8),
             });
         }
         // make sure a READ follows a FAIL somewhere
-        s.insert(0, Step16::Fail(rng.below(N_FAIL_KINDS as usize) as u8));
+        s.insert(0, Step16::Fail(*rng.pick(&palette)));
         s.push(Step16::Read);
         threads.push(s);
     }
     let lens: Vec<usize> = threads.iter().map(|t| t.len()).collect();
     let schedule = gen_schedule(rng, k, &lens);
-    Scen16 { threads, schedule }
+    let mut churn = Vec::new();
+    if rng.chance(1, 12) {
+        let at = rng.below(schedule.len().max(1));
+        churn.push((at, rng.range(30, 70), rng.below(N_FAIL_KINDS as usize) as u8));
+    }
+    Scen16 {
+        threads,
+        schedule,
+        churn,
+    }
 }
 
 pub fn run_c16(seed: u64, run: u64) -> RunReport {
@@ -999,6 +1041,13 @@ pub fn minimise(prop: &str, scenario: &Value, sig: &str, budget: usize) -> Value
                 *tried += 1;
                 matches!(exec16(s).0, Some(v) if v.signature() == sig)
             };
+            if !best.churn.is_empty() {
+                let mut c = best.clone();
+                c.churn.clear();
+                if ok(&c, &mut tried) {
+                    best = c;
+                }
+            }
             let mut progress = true;
             while progress && tried < budget {
                 progress = false;
